@@ -1,19 +1,82 @@
 """C03 configuration (see lib/props.py for the format)."""
 
+_WD = ["--watchdog", "120"]
+
 PROP = dict(
     harnesses={"c03_fd_events": dict(sources=["harness/c03_fd_events.cpp"])},
     legs=[
+        # 14 hand-written minimal histories x {epoll, select}
         dict(name="directed", harness="c03_fd_events", flavour="asan", mode="directed", quick=28, thorough=28, scalable=False,
-             args=["--watchdog", "120"], case_timeout=120),
+             args=_WD, case_timeout=120),
+        # case 2k = scenario k on epoll, 2k+1 = the same scenario on select; scenario class k%4 limits the destructive actions
         dict(name="safety", harness="c03_fd_events", flavour="asan", mode="safety", quick=400000, thorough=12000000,
-             args=["--watchdog", "120"], case_timeout=120),
+             args=_WD, case_timeout=120),
+        # one case = one order-independent scenario run on epoll and on select in the same process, callbacks compared per pass
         dict(name="equiv", harness="c03_fd_events", flavour="asan", mode="equiv", quick=160000, thorough=5000000,
-             args=["--watchdog", "120"], case_timeout=120),
+             args=_WD, case_timeout=120),
     ],
-    rule="TBD",
-    assumptions=[],
-    technique="TBD",
-    level_text="TBD",
-    level_note="TBD",
-    required_counters={"all": []},
+    rule=("safety: a seeded scenario of 2-5 pipes / AF_UNIX stream socket pairs (4-10 descriptors), 1-3 FdEvents on ~60% of the "
+          "descriptors (read / write / read+write, 1 in 12 also except; 1 in 4 one-shot; shared descriptors) and 3-7 loop passes "
+          "(runLoop(kOnce)). Before each pass every direction of every channel is left alone, drained, given one byte or filled until "
+          "EAGAIN, events are enabled/disabled/destroyed/created outside callbacks, and the harness poll()s every descriptor itself. Each "
+          "callback runs 0-3 actions drawn from: disable self, re-enable self (one-shot re-arm), consume, write a byte, delete self "
+          "later through runNext, disable / enable / disable+enable / destroy another event (target chosen on the same descriptor, on "
+          "another descriptor that is ready and not yet served in this pass, on one already served, on one that is not ready), destroy "
+          "every event of another descriptor (then create a new event on a descriptor without a record, or close that descriptor), "
+          "create a new event (same descriptor / ready / not ready / record-less), close own descriptor (siblings destroyed or disabled "
+          "first, self disabled and deleted later), close the other end of the own channel. The same scenario is run on epoll (even "
+          "case index) and select (odd). equiv: the same generator restricted to scripts that are order-independent by construction "
+          "(a callback acts on itself or on events it owns whose descriptor has poll revents 0 in that pass, creates events only on such "
+          "descriptors, closes only never-watched peers; no except mask, no writes), run on both back-ends in one process; the per-pass "
+          "multisets of (event, reported mask & subscription) must be equal. directed: 14 minimal histories x 2 back-ends. "
+          "A case is non-trivial when some pass had at least two descriptors with a due enabled event and a callback changed another "
+          "event (enable/disable/destroy/create); distinct = distinct hashes of the executed action script (kinds, target classes, "
+          "descriptors, masks, readiness shaping) among those"),
+    assumptions=[
+        "a descriptor is closed only after every event on it has been destroyed or disabled (the running event is disabled and deleted "
+        "later); closing a descriptor that still carries enabled events is API misuse (the kernel recycles the number: the loop's own "
+        "wake-up descriptor of the next pass would inherit the record) and is not generated; events left disabled on a closed descriptor "
+        "are never enabled again",
+        "no descriptor is opened while a pass is in progress, so a descriptor number is never closed and re-opened between the back-end's "
+        "wait and the end of the pass (both back-ends identify a descriptor by its number)",
+        "an event is never deleted or re-initialised from inside its own callback (the code asserts against the former; the documented "
+        "idiom, deletion through runNext, is generated); initialize() is called once per event",
+        "readiness is what the harness's own poll() reported immediately before runLoop(kOnce); POLLHUP/POLLERR are accepted as "
+        "justification for any reported condition (the back-ends map them differently); within one pass the back-end waits once, so "
+        "readiness created during the pass is not expected to be delivered in it",
+        "equivalence is claimed for the order-independent class only, without except subscriptions and without closing the read end of "
+        "a pipe whose write end is watched (a full pipe without reader reports only an error condition, which select maps to writable "
+        "and epoll to except)",
+        "use of a destroyed event or of a released per-descriptor record is observed through AddressSanitizer and the object-pool "
+        "poisoning hook; a touch that stays inside a live reallocation of the same block would only be seen through the model checks",
+    ],
+    technique=("runtime monitoring of the real epoll and select back-ends over real pipes/socket pairs: independent model of alive/enabled/"
+               "one-shot/subscription state plus the harness's own poll() snapshot checked at every callback, try/catch around every pass, "
+               "ASan+UBSan with poisoned pooled records, differential comparison of the two back-ends on order-independent scenarios"),
+    level_text=("Every callback of every generated history is checked against an independent model (event alive and enabled, one-shot "
+                "already disabled, reported mask within the subscription, descriptor ready in the harness's own poll() snapshot), every "
+                "pass is wrapped in try/catch, AddressSanitizer with pooled-record poisoning watches destroyed events and released "
+                "records, and order-independent scenarios must produce identical callbacks on epoll and select. Held on the histories "
+                "explored, not a proof."),
+    level_note=("trusts the harness model, poll() as ground truth for readiness, gcc ASan/UBSan and the pool-poisoning hook; which ready "
+                "descriptor a back-end serves first is not controlled, only varied by the generator (symmetric scripts in the directed set)"),
+    required_counters={"all": [
+        "cb_epoll", "cb_select", "cb_oneshot", "cb_on_shared_fd", "cb_on_hup_fd",
+        "pass_two_or_more_fds_due", "pass_shared_fd_due", "snap_fd_readable_not_writable", "snap_fd_not_ready",
+        # the running event
+        "act_disable_self_while_enabled", "act_oneshot_rearm_in_own_callback", "act_deferred_self_delete", "deferred_delete_executed",
+        # other events: same descriptor / another descriptor that is ready and still waiting to be served in the same pass
+        "act_disable_enabled_on_same_fd", "act_disable_enabled_on_other_ready_unserved_fd",
+        "act_enable_on_same_fd", "act_enable_on_other_ready_unserved_fd",
+        "act_toggle_on_same_fd", "act_toggle_on_other_ready_unserved_fd",
+        "act_destroy_enabled_on_same_fd", "act_destroy_enabled_on_other_ready_unserved_fd",
+        # shared record released to the pool while its descriptor is still waiting; pooled record re-used in the same pass
+        "act_destroy_all_on_other_ready_unserved_fd", "record_released_while_fd_ready_and_unserved",
+        "create_takes_record_released_in_same_pass", "create_shares_existing_record", "act_create_enabled_on_ready_unserved_fd",
+        # close
+        "act_close_own_fd", "act_close_other_fd_after_destroying_its_events", "act_close_peer", "act_close_fd_with_disabled_events_left",
+        # back-end equivalence
+        "equiv_scenarios_compared", "equiv_callbacks_matched", "equiv_passes_with_two_or_more_callbacks",
+        "directed_cases",
+    ]},
 )
